@@ -18,7 +18,7 @@ fn run(ctx: &mut Ctx, extra: &mut BTreeMap<String, String>) {
   let small = ctx.pass != "release";
   let exh = if ctx.thorough { if small { 3 } else { 5 } } else if small { 2 } else { 3 };
   let n_cells = if ctx.thorough { if small { 200 } else { 4000 } } else if small { 40 } else { 300 };
-  let n_pts = if ctx.thorough { if small { 2000 } else { 40000 } } else if small { 300 } else { 3000 };
+  let n_pts = if ctx.thorough { if small { 2000 } else { 400000 } } else if small { 300 } else { 3000 };
   extra.insert("exhaustive_up_to_depth".into(), format!("{}", exh));
   let shards = 16usize;
   run_sharded(ctx, shards, |c, k| {
